@@ -795,6 +795,9 @@ func (e *Env) call(c *ECall) TV {
 		v := e.toTerm(e.eval(c.Args[0]))
 		t := e.resolveType(exprKey(c.Args[1]))
 		return TV{e.x.unboxIface(st, v, t), t}
+	case "cast":
+		// cast(term, "type"): the term seen as a value of the named type (no run-time check implied)
+		return TV{e.toTerm(e.eval(c.Args[0])), e.resolveType(exprKey(c.Args[1]))}
 	case "isclosure":
 		v := e.toTerm(e.eval(c.Args[0]))
 		fn := e.x.eng.funcByKey(e.qualKey(exprKey(c.Args[1])))
